@@ -15,6 +15,7 @@ structure DriverState where
   sudo : Sudo.State := default
   devgas : DevGas.State := default
   logidx : LogIndex.State := {}
+  evmtx : EvmTx.State × EvmTx.View := default
 
 def splitArgs (line : String) : List String :=
   (line.trimAscii.toString.splitOn " ").filter (· ≠ "")
@@ -41,6 +42,9 @@ def stepLine (st : DriverState) (line : String) : DriverState × String :=
   | "logidx" :: args =>
     let (s', out) := LogIndex.step (LogIndex.cfgOfFacts Generated.bloomSiteArgs) st.logidx args
     ({ st with logidx := s' }, out)
+  | "evmtx" :: args =>
+    let (s', out) := EvmTx.step st.evmtx args
+    ({ st with evmtx := s' }, out)
   | "oracle" :: args => (st, Oracle.step args)
   | "infl" :: args =>
     let (s', out) := Inflation.step st.infl args
